@@ -62,11 +62,12 @@ func describeList(txs []txcache.VerifTx) string {
 func main() {
 	_ = logger.SetLogLevel("*:NONE")
 	r := vk.Start("C26")
-	r.Rule("per case one TxCache (eviction off, generous per-sender limits, 1/4/16 chunks), 1..5 senders, nonces 0..8 with gaps anywhere incl. after nonce 0, 3 gas prices, random AddTx / RemoveTxByHash / NotifyAccountNonce / SelectTransactions(numRequested in {0,1,2,3,5,10,50,200}, batch in {1,2,3,10}); every selection is one oracle evaluation on the quiescent pre-selection snapshot. A selection is non-trivial when some sender has an initial or a middle gap or the request was filled; distinct = multiset of per-sender classes (nonce known, initial gap, possible grace, starts at 0, middle gap, list length bucket) + filled flag")
+	r.Rule("per case one TxCache (eviction off, generous per-sender limits, 1/4/16 chunks), 1..5 senders, nonces 0..8 with gaps anywhere incl. after nonce 0, 3 gas prices, random AddTx / RemoveTxByHash / NotifyAccountNonce / SelectTransactions(numRequested in {0,1,2,3,5,10,50,200}, batch in {1,2,3,10}); every selection is one oracle evaluation on the quiescent pre-selection snapshot. A selection is non-trivial when some sender has an initial or a middle gap or the request was filled; distinct = multiset of per-sender classes (nonce known, initial gap, possible grace, starts at 0, middle gap, list length bucket) + filled flag. Concurrent phase (conc.go, cases after the sequential ones): 1..6 victim senders with gaps anywhere + 1..3 pacer senders, short lists (copied whole by pass 0) or long lists (15..150 txs, drained over many passes), one SelectTransactions(3..1000, batch 1/2/3/10) runs in its own goroutine and is parked at every pacer transaction it examines (GetNonce of a data.TransactionHandler decorator); while parked, the harness removes the lowest nonces of a random victim through RemoveTxByHash (2/3: exactly everything in front of its first gap); every such selection is one oracle evaluation (<= requested, distinct, pooled at call start, per sender a contiguous run starting right behind the removed prefix, no skipped nonce); non-trivial when at least one removal step happened inside the call")
 	r.Assume("eviction is disabled and per-sender limits are not reached, so a sender's list object (with its notified nonce and failed-selection counter) only disappears when its last transaction is removed or when it is swept; both are observed through the snapshot",
 		"when a request is filled the first pass may not reach every sender: the model keeps the set of possible failed-selection counts",
 		"grace period = exactly the 2nd consecutive selection with an initial gap (repository constants 2..2); sweep after the 3rd",
-		"selection order between senders depends on Go map iteration, so a replay may fill a small request from other senders; recorded details are self-contained")
+		"selection order between senders depends on Go map iteration, so a replay may fill a small request from other senders; recorded details are self-contained",
+		"concurrent phase: the selection goroutine is only ever parked inside the list critical section of a pacer sender, whose transactions are never removed; the remover touches other senders only, so each produced interleaving is admitted by the unchanged code (pre-emption of the selecting goroutine at that point); no oracle reads the clock")
 	r.MinShapes(60)
 
 	cases := r.N(6000, 250000)
@@ -370,6 +371,9 @@ func main() {
 	if r.ReplayCase < 0 {
 		if r.Counter("senders_with_gap_right_after_nonce_0") < 50 || r.Counter("grace_period_single_tx_selected") < 20 {
 			r.Inconclusive("the generator did not produce enough gap-after-nonce-0 or grace-period selections")
+		}
+		if r.Counter("conc_removal_steps") < 1000 || r.Counter("conc_gap_prefix_removed_after_examined") < 200 {
+			r.Inconclusive("the concurrent phase removed too few gap prefixes between the passes of a running selection")
 		}
 	}
 	r.Finish()
